@@ -163,7 +163,7 @@ pub(crate) mod kani_verif {
         let mut k: HssPrivateKey<H> = Default::default();
         let mut i = 0;
         while i < L {
-            let p = HssParameter::<H>::new(LmotsAlgorithm::LmotsW4, LmsAlgorithm::from(codes[i] as u32));
+            let p = HssParameter::<H>::new(LmotsAlgorithm::LmotsW8, LmsAlgorithm::from(codes[i] as u32));
             k.private_key.push(LmsPrivateKey::new(
                 Seed::default(),
                 [0u8; ILEN],
